@@ -147,6 +147,11 @@ def run_one(ch, cfg):
                     # integers, trailing bytes, long-form lengths)
                     from checks.c06 import malleate_signature
                     e[f] = malleate_signature(bytes.fromhex(e[f]), ch, "stored")[0].hex()
+                elif f == "tweak" and ch.draw(2, "stored.zero-bytes") == 1:
+                    # the tweak is an HMAC key: with zero bytes appended (or a trailing zero byte
+                    # removed) it is the same key, so the signatures still verify
+                    e[f] = e[f][:-2] if e[f].endswith("00") and len(e[f]) > 2 \
+                        else e[f] + "00" * (1 + ch.draw(4, "stored.zeros"))
                 else:
                     e[f] = flip(bytes.fromhex(e[f]), ch, "stored").hex()
                 site = "stored:%s.%s" % (e["name"], f)
